@@ -970,8 +970,11 @@ class Router:
         # Step 2: look up DE PV from LocT
         de_entry = self.location_table.get_entry(
             request.destination) if request.destination else None
-        if de_entry is None:
-            # No LocTE for destination → invoke Location Service (§10.3.7.1.2)
+        with self._ls_lock:
+            lookup_pending = request.destination in self._ls_packet_buffers
+        if de_entry is None or lookup_pending:
+            # No LocTE for destination, or its position is still being looked up (the LocTE is only
+            # the placeholder created by gn_ls_request) → invoke / join the Location Service (§10.3.7.1.2)
             assert request.destination is not None
             self.gn_ls_request(request.destination, request)
             return GNDataConfirm(result_code=ResultCode.ACCEPTED)
